@@ -319,6 +319,16 @@ B("C04", "k3-normaliser-log-split", (TD, "        self.delta / (4. * ((n as f64)
 B("C04", "k1-two-pi-hoisted", (TD, "        self.delta / (2. * f64::consts::PI) * (2. * q - 1.).asin()", "        let two_pi = 2. * f64::consts::PI;\n        (2. * q - 1.).asin() * self.delta / two_pi"))
 M("C03", "bias-entry-digit-dropped", ("src/hyperloglog/data.rs", "30093.78", "3093.78"), "R03-bias-outlier", "BIAS_DATA_VEC")
 
+# ======================================================================================= round 5 additions
+_anchor = "            m,\n            len\n        );\n"
+M("C17", "ctor-rejects-top-rank", (HLL, _anchor, _anchor + "        assert!(registers.iter().all(|&r| (r as usize) <= 64 - b), \"register value out of range\");\n"), "R17-ctor-admits", "with_registers_and_hash")
+M("C17", "ctor-rejects-top-rank-strict", (HLL, _anchor, _anchor + "        assert!(registers.iter().all(|&r| (r as usize) < 65 - b), \"register value out of range\");\n"), "R17-ctor-admits", "with_registers_and_hash")
+B("C17", "ctor-validates-ranks-correctly", (HLL, _anchor, _anchor + "        assert!(registers.iter().all(|&r| (r as usize) <= 64 - b + 1), \"register value out of range\");\n"))
+M("C03", "neighbour-right-bound-off-by-one", (HLL, "                idx_right = if idx < lookup_array.len() - 1 {", "                idx_right = if idx < lookup_array.len() {"), "R03-neighbour-bounds", "estimate_bias")
+M("C03", "neighbour-left-unguarded", (HLL, "                idx_left = if idx > 0 { Some(idx - 1) } else { None };", "                idx_left = if idx > 1 { Some(idx - 1) } else if idx == 1 { Some(0) } else { Some(idx.wrapping_sub(1)) };"), "R03-neighbour-bounds", "estimate_bias")
+M("C06", "quotient-union-else-if", (QF, "                    }\n                    if !other.is_continuation[j] {", "                    } else if !other.is_continuation[j] {"), "R06-quotient-fifo", "independent-tests")
+M("C14", "kick-offset-hoisted", [(CF, "        for _ in 0..MAX_NUM_KICKS {\n", "        let offset = i * self.bucketsize;\n        for _ in 0..MAX_NUM_KICKS {\n"), (CF, "            let offset = i * self.bucketsize;\n            let x = offset + e;", "            let x = offset + e;")], "R01-cuckoo-home", "kick-loop")
+
 
 def main():
     out = os.path.join(os.path.dirname(os.path.abspath(__file__)), "corpus.json")
